@@ -370,7 +370,7 @@ PROPS['C08'] = dict(
     mc=[dict(module='MC_Conc', name='MC_ConcRW', cfg=CONC_CFG, consts=dict(Invs='QuiescentLiveEqualsRecovered IndexShowsRegister GetReturnsRegister NoInternalError NoDeadlock', Menu='MenuRW'),
              workers=12, timeout=2400, xmx='16g',
              quick=dict(Clients='{"a", "b", "c"}'), thorough=dict(Clients='{"a", "b", "c", "d"}'))],
-    traces=[dict(profile='conc', spec='LinTrace', enforce=[], sig=lin_sig, deterministic=False,
+    traces=[dict(profile='conc', spec='LinTrace', enforce=[], sig=lin_sig, deterministic=False, chunk=15000,
                  quick_seeds=1, thorough_seeds=2, tlc_timeout=2400)],
     rule='distinct per-key histories (label + order of call/return events; histories with at most one call are trivial and not counted) plus distinct (call, outcome) pairs',
     assumptions=['call/return order = a global atomic counter taken by the client immediately before the call and after the return (never wall-clock time)',
@@ -384,9 +384,9 @@ PROPS['C09'] = dict(
     mc=[dict(module='MC_Conc', name='MC_ConcAll', cfg=CONC_CFG, consts=dict(Invs='NoPanic NoInternalError NoDeadlock NoRace QuiescentLiveEqualsRecovered', Menu='MenuAll'),
              workers=12, timeout=2400, xmx='16g',
              quick=dict(Clients='{"a", "b", "c"}'), thorough=dict(Clients='{"a", "b", "c", "d"}'))],
-    traces=[dict(profile='race', spec='LinTrace', enforce=['c09', 'norace', 'nostuck'], sig=lin_sig, deterministic=False, race=True,
+    traces=[dict(profile='race', spec='LinTrace', enforce=['c09', 'norace', 'nostuck'], sig=lin_sig, deterministic=False, race=True, chunk=15000,
                  quick_seeds=1, thorough_seeds=2, tlc_timeout=2400),
-            dict(profile='conc', spec='LinTrace', enforce=['nostuck'], sig=lin_sig, deterministic=False, race=True,
+            dict(profile='conc', spec='LinTrace', enforce=['nostuck'], sig=lin_sig, deterministic=False, race=True, chunk=15000,
                  quick_seeds=1, thorough_seeds=1, tlc_timeout=2400)],
     rule='distinct (call kind, outcome) pairs per configuration of the mixed workloads, and distinct forced/random schedules; trivial = none',
     assumptions=['the clause "without unsynchronised conflicting memory accesses" is a statement about memory accesses that a TLA+ specification does not observe: it is decided by Go\'s happens-before race detector acting as an execution monitor on the engine built with -race during these runs (a report makes the norace note false); the specification contributes the lockset invariant NoRace on the model and the schedule points used to perturb the runs',
